@@ -340,15 +340,20 @@ Section Inv.
   Definition trailer_contract : Prop :=
     forall b t x u, parse b = Some (t, x) -> parse (cached_form b u) = Some (t, Some u).
 
-  Lemma rehit_same : trailer_contract ->
-    forall f0 locals ss evs t u ss2 evs2,
+  (* the contract restricted to the URLs of the servers that are asked *)
+  Definition trailer_contract_on (ss : list server) : Prop :=
+    forall b t x cur, In cur ss -> parse b = Some (t, x) ->
+      parse (cached_form b (s_url cur)) = Some (t, Some (s_url cur)).
+
+  Lemma rehit_same_on : forall f0 locals ss evs t u ss2 evs2,
+    trailer_contract_on ss ->
     let s1 := locate f0 locals None ss evs in
     s_l s1 = LDone (ROk t u) ->
     (exists c, cache (s_fs s1) p = Some (File c)) ->
     let s2 := locate (s_fs s1) locals None ss2 evs2 in
     s_l s2 = LDone (ROk t u) /\ s_log s2 = [] /\ s_fs s2 = s_fs s1.
   Proof.
-    intros Hct f0 locals ss evs t u ss2 evs2 s1 Hr [c Hc] s2.
+    intros f0 locals ss evs t u ss2 evs2 Hct s1 Hr [c Hc] s2.
     destruct (first_file (locals ++ [cache_file f0 p])) as [c0|] eqn:Hff.
     - (* the first lookup was a local / cache hit *)
       destruct (locate_local_hit f0 locals None ss evs c0 Hff) as [Hf [_ Hl]]. fold s1 in Hf, Hl.
@@ -360,13 +365,25 @@ Section Inv.
       assert (Hs1 : s1 = run (net_start f0 ss) evs).
       { unfold s1, Model.locate. rewrite Hff. destruct ss; reflexivity. }
       rewrite Hs1 in Hr, Hc.
-      destruct (net_commit_only_after_ok f0 ss evs p c Hc) as [_ [pre [cur [code [chunks [post [t' [x [_ [_ [_ [Hp [Hl' Hcont]]]]]]]]]]]]].
+      destruct (net_commit_only_after_ok f0 ss evs p c Hc) as [_ [pre [cur [code [chunks [post [t' [x [_ [Hin [_ [Hp [Hl' Hcont]]]]]]]]]]]]].
       { intro Hx. unfold cache_file in Hcf. rewrite Hx in Hcf. discriminate. }
       rewrite Hr in Hl'. inversion Hl'; subst t' u.
       assert (Hff2 : first_file (locals ++ [cache_file (s_fs s1) p]) = Some c).
       { rewrite first_file_app_none by exact Hloc. unfold cache_file. rewrite Hs1, Hc. reflexivity. }
       destruct (locate_local_hit (s_fs s1) locals None ss2 evs2 c Hff2) as [Hf2 [Hlog2 Hl2]]. fold s2 in Hf2, Hlog2, Hl2.
-      rewrite Hl2, Hcont, (Hct _ _ _ (s_url cur) Hp). auto.
+      rewrite Hl2, Hcont, (Hct _ _ _ cur Hin Hp). auto.
+  Qed.
+
+  Lemma rehit_same : trailer_contract ->
+    forall f0 locals ss evs t u ss2 evs2,
+    let s1 := locate f0 locals None ss evs in
+    s_l s1 = LDone (ROk t u) ->
+    (exists c, cache (s_fs s1) p = Some (File c)) ->
+    let s2 := locate (s_fs s1) locals None ss2 evs2 in
+    s_l s2 = LDone (ROk t u) /\ s_log s2 = [] /\ s_fs s2 = s_fs s1.
+  Proof.
+    intros Hct f0 locals ss evs t u ss2 evs2. apply rehit_same_on.
+    intros b t0 x cur _ Hp. apply (Hct b t0 x (s_url cur) Hp).
   Qed.
 
   (* only NotFound cascades: a file that exists locally or in the cache decides the lookup,
